@@ -430,6 +430,7 @@ def xadmBound (t : List String) : Option Bool :=
   | ["fee", v] => do pure (decide ((← v.toNat?) ≤ Gen.MAX_FEE_RATE))
   | ["proto", v] => do pure (decide ((← v.toNat?) ≤ Gen.MAX_PROTOCOL_FEE_RATE))
   | ["idx", v] => do pure (decide ((← v.toNat?) < 3))
+  | ["afcsame"] => some false   -- set_adaptive_fee_constants with nothing to change is refused
   | "afc" :: rest => do
     let n ← natArgs rest
     match n with
